@@ -106,7 +106,23 @@ def climber_selectors(rng, names, n):
         else:
             s = "/" + nm + "/" + rng.choice(["MBOX-MESSAGE", "x.zip"]) + "/" + up + "/" + tg
         out.append(s)
+    # climbing in the REAL part of a virtual selector (argument suffix after | or ?)
+    for up in ("..", "../..", "dir1/../.."):
+        out.append("/" + up + "/mail.mbox|/MBOX-MESSAGE/1")
+        out.append("/" + up + "/md|/MAILDIR-MESSAGE/1")
+        out.append("/" + up + "/script.sh?hello")
+        out.append("/" + up + "/script.sh|x y")
     return out
+
+
+def literal_percent_forms(rng, s):
+    """The selector with its dangerous characters written as percent escapes in the TEXT of
+    the selector (for protocols that do not percent-decode, and as the second layer for those
+    that do): a server must treat these as plain characters."""
+    full = "".join("%%%02X" % b for b in sel_bytes(s)[1:])
+    part = s.replace("..", "%2E%2E").replace("|", "%7C").replace("?", "%3F")
+    part2 = "/" + s[1:].replace("..", "%2e%2e").replace("/", "%2f")
+    return ["/" + full, part, part2]
 
 
 def benign_names(rng, n):
